@@ -914,6 +914,10 @@ def switch(chk):
         ok2 = False
     retarget = [n for n in ast.walk(init_node) if isinstance(n, ast.Assign) and any(isinstance(t, ast.Attribute) and t.attr == "target" and not (isinstance(t.value, ast.Name) and t.value.id == "self") for t in n.targets)]
     names = {ast.unparse(t.value) for n in retarget for t in n.targets if isinstance(t, ast.Attribute)}
+    # a local that stands for the controller being re-targeted (`controller = default; controller.target = target`)
+    for tg, val in util.simple_assignments(init_node):
+        if isinstance(tg, ast.Name) and tg.id in names and isinstance(val, ast.Name):
+            names.add(val.id)
     vals = {ast.unparse(n.value) for n in retarget}
     if "default" not in names or not any(isinstance(n, ast.For) and any(r in ast.walk(n) for r in retarget) for n in ast.walk(init_node)):
         chk.bad(rule, init.qual, "not every slave (and the default) is re-targeted to the switch's own target (re-targeted: %s)" % sorted(names), node=init_node, stmt="retarget")
